@@ -20,6 +20,14 @@ CHECKS = {
             "Trusted: TLC/SANY, the TLA+ reference operators in Strings.tla, the harness encoders. Bounded: exhaustive only within "
             "the TLC constants; larger inputs by sampled traces.",
             "TLA+ model checking (TLC) + spec-to-code replay + trace validation"),
+    "C02": ("DESIGN.md 4/C02",
+            "Coincidence.tla (Convert: cell-wise row serialisation with a separator, CountUnique, Combine; exact rationals of Rational.tla) "
+            "is model-checked for every multiplicity pattern up to a size bound, all pairs of small samples and all small tables with "
+            "missing cells (PcExact, InUnitInterval, MultisetOnly, JoinInjective; mutants N^2 denominator and dropped separator rejected). "
+            "Every terminal behaviour is executed on pc, pc_n, pc_joint under several value types / table layouts / the legacy tuple form; "
+            "random Zipf samples and tables are validated by TraceCoincidence.tla.",
+            "Trusted: TLC, Rational.tla; floats snapped to rationals (denominators of the true values <= 1640 << 1e6).",
+            "TLA+ model checking (TLC) + spec-to-code replay + trace validation"),
     "C03": ("DESIGN.md 4/C03",
             "NNSearch.tla with a second collection (SdBuild*, SdLookup / HbBuild, HbLookup, MakeOutput, NewLookup for repeated "
             "queries against one built index) is model-checked for all small reference/query lists (invariants Exact, NoRepeat, "
